@@ -310,6 +310,48 @@ def rand_graph(rs, n, density, directed, wmax=1, signed=False):
     return A
 
 
+def same_result(a, b, tol=0.0):
+    """structural equality of two bct results (nested tuples/lists/arrays/scalars); nan == nan"""
+    if isinstance(a, (tuple, list)) and isinstance(b, (tuple, list)):
+        return len(a) == len(b) and all(same_result(x, y, tol) for x, y in zip(a, b))
+    try:
+        x = np.asarray(a, dtype=float); y = np.asarray(b, dtype=float)
+    except Exception:
+        return a == b
+    if x.shape != y.shape:
+        return False
+    return bool(np.all((x == y) | (np.isnan(x) & np.isnan(y)) | (np.abs(x - y) <= tol * np.maximum(1.0, np.abs(y)))))
+
+
+def reuse_probe(fn, args, mutate, kwargs=None, t=3.0, tol=0.0, seed=None):
+    """History / object-reuse probe. Every property of a bct routine is a statement about a *function of the argument
+    values*: the result may depend neither on earlier calls nor on the identity of the array objects passed. This helper
+      1. calls fn(*args) (warming any hidden per-object / per-size state),
+      2. applies `mutate(args)` IN PLACE to the same objects (e.g. lesion an edge, move a node to another module),
+      3. calls fn(*args) again on the SAME objects,
+      4. calls fn on fresh deep copies of the mutated arguments,
+    and returns None if 3 and 4 agree (same exception kind, or same_result within tol) or a dict describing the
+    disagreement. `seed` (int) is passed as seed=... to each call when given. Timeouts return None (nothing to compare)."""
+    import copy
+    kw = dict(kwargs or {})
+    if seed is not None:
+        kw['seed'] = seed
+    r1 = call(fn, *args, t=t, **kw)
+    mutate(args)
+    snap = copy.deepcopy(args)
+    r2 = call(fn, *args, t=t, **kw)
+    r3 = call(fn, *copy.deepcopy(snap), t=t, **kw)
+    if 'timeout' in (r1[0], r2[0], r3[0]):
+        return None
+    if r2[0] != r3[0]:
+        return {'second_call_on_same_objects': r2[0], 'fresh_copies': r3[0], 'detail': [str(r2[1])[:200], str(r3[1])[:200]]}
+    if r2[0] == 'exc':
+        return None if exc_kind(r2[1]) == exc_kind(r3[1]) else {'second_call_on_same_objects': r2[1], 'fresh_copies': r3[1]}
+    if not same_result(r2[1], r3[1], tol):
+        return {'second_call_on_same_objects': str(r2[1])[:300], 'fresh_copies': str(r3[1])[:300]}
+    return None
+
+
 def digest(obj):
     return hashlib.sha1(json.dumps(obj, sort_keys=True, default=str).encode()).hexdigest()[:12]
 
